@@ -40,6 +40,9 @@ type hResModel struct {
 	pc      *hRc
 	pd      *hRd
 	locked  bool
+	// mappers created once at registration and kept for the whole history
+	ra Resource[hRa]
+	rd Resource[hRd]
 }
 
 // placement of the resource types: IDs 0, 1/17, 63/64, 255 (or 63 in the tiny build)
@@ -72,12 +75,14 @@ func (m *hResModel) register(k int) {
 	switch k {
 	case 0:
 		m.id[k] = ecs.ResourceID[hRa](w)
+		m.ra = NewResource[hRa](w)
 	case 1:
 		m.id[k] = ecs.ResourceID[hRb](w)
 	case 2:
 		m.id[k] = ecs.ResourceID[hRc](w)
 	default:
 		m.id[k] = ecs.ResourceID[hRd](w)
+		m.rd = NewResource[hRd](w)
 	}
 	m.reg[k] = true
 }
@@ -116,6 +121,14 @@ func (m *hResModel) observe() {
 	}
 	// generic.Resource and ecs.GetResource on types a (ID 0) and b
 	if m.reg[0] {
+		var gp *hRa
+		pan0, _ := vCatch(func() { gp = m.ra.Get() })
+		vAssert(!pan0 && m.ra.Has() == m.present[0], "a long-lived generic.Resource mapper reports Has like the world")
+		if m.present[0] {
+			vAssert(gp == m.pa, "a long-lived generic.Resource mapper returns the pointer currently stored in the world")
+		} else {
+			vAssert(gp == nil, "a long-lived generic.Resource mapper returns nil once the resource is gone")
+		}
 		r := NewResource[hRa](w)
 		vAssert(r.ID() == m.id[0], "generic.Resource resolves the same resource ID")
 		vAssert(r.Has() == m.present[0], "generic.Resource.Has agrees")
@@ -131,6 +144,14 @@ func (m *hResModel) observe() {
 		}
 	}
 	if m.reg[3] {
+		var gp *hRd
+		pan0, _ := vCatch(func() { gp = m.rd.Get() })
+		vAssert(!pan0 && m.rd.Has() == m.present[3], "a long-lived generic.Resource mapper reports Has like the world (last id)")
+		if m.present[3] {
+			vAssert(gp == m.pd, "a long-lived generic.Resource mapper returns the pointer currently stored in the world (last id)")
+		} else {
+			vAssert(gp == nil, "a long-lived generic.Resource mapper returns nil once the resource is gone (last id)")
+		}
 		r := NewResource[hRd](w)
 		var g *hRd
 		pan, _ := vCatch(func() { g = r.Get() })
@@ -155,8 +176,7 @@ func (m *hResModel) add(k int, api int) {
 		case 0:
 			pan, _ = vCatch(func() { w.Resources().Add(m.id[k], p) })
 		case 1:
-			r := NewResource[hRa](w)
-			pan, _ = vCatch(func() { r.Add(p) })
+			pan, _ = vCatch(func() { m.ra.Add(p) })
 		default:
 			pan, _ = vCatch(func() { ecs.AddResource(w, p) })
 		}
